@@ -1,3 +1,11 @@
 package world
 
-func extraMonitors(prop string, tr *Tracker) []Monitor { return nil }
+func extraMonitors(prop string, tr *Tracker) []Monitor {
+	switch prop {
+	case "C08":
+		return []Monitor{&monC08{base: base{tr}, seen: map[string]bool{}}}
+	case "C03":
+		return []Monitor{&monC03{base: base{tr}}}
+	}
+	return nil
+}
